@@ -196,7 +196,7 @@ def number_spec(s):
 
 def lexical_obligations(run, lexmod):
     Lexer = lexmod.Lexer
-    rx = re.compile(Lexer.t_NUMBER, re.VERBOSE)
+    rx = re.compile(cc.rule_pattern(Lexer.t_NUMBER), re.VERBOSE)
     alpha = '0179.eE+-xXaf'
     bad = None
     n = 0
@@ -212,7 +212,7 @@ def lexical_obligations(run, lexmod):
         run.failed('lex.number', 'E3/charclass', bad, dict(literal=bad), observed='t_NUMBER and the ES5 NumericLiteral grammar disagree on %r' % bad,
                    required='7.8.3', replayed=True)
     # regular expression literals (7.8.5): exhaustive short strings on the real compiled pattern
-    rrx = re.compile(Lexer.t_regex_REGEX, re.VERBOSE)
+    rrx = re.compile(cc.rule_pattern(Lexer.t_regex_REGEX), re.VERBOSE)
     ralpha = ['/', 'a', '\\', '[', ']', '\n', '\u2028', '*', 'g', '\r']
     bad = None
     n = 0
@@ -229,6 +229,16 @@ def lexical_obligations(run, lexmod):
         why = 't_regex_REGEX %s %r, the ES5 RegularExpressionLiteral grammar %s' % (
             'accepts' if rrx.fullmatch(bad) else 'rejects', bad, 'does not derive it' if rrx.fullmatch(bad) else 'derives it')
         run.failed('lex.regex_literal', 'E3/charclass', bad, dict(literal=bad), observed=why, required='7.8.5', replayed=True)
+    # the keyword table is exactly the ES5 reserved words of non-strict code (7.6.1): a word more rejects valid identifiers,
+    # a word less accepts reserved words as identifiers
+    kw = set(Lexer.keywords_dict)
+    extra_kw, missing_kw = sorted(kw - set(es5_lexical.RESERVED_WORDS)), sorted(set(es5_lexical.RESERVED_WORDS) - kw)
+    if not extra_kw and not missing_kw:
+        run.discharged('lex.keyword_table', 'E3/const', 'python', 0.0)
+    else:
+        why = 'keywords of the lexer that ES5 does not reserve: %r; reserved words it lacks: %r' % (extra_kw, missing_kw)
+        run.failed('lex.keyword_table', 'E3/const', (extra_kw + missing_kw)[0], dict(extra=extra_kw, missing=missing_kw), observed=why,
+                   required='7.6.1.1 keywords, 7.6.1.2 future reserved words (non-strict), null / true / false', replayed=True)
     sets = cc.es5_sets()
     ident = re.compile(Lexer.identifier)
     start = cc.from_regex(ident)
